@@ -237,9 +237,18 @@ type apiWorld struct {
 	cancel   context.CancelFunc
 	oldTrans http.RoundTripper
 	desc     []string
+	quiet    bool
 }
 
+// note records a line of the human-readable case description. Under -race it is
+// silent unless the run keeps its log (fmt's sync.Pool would add happens-before
+// edges between the goroutines of the code under test that call into the stub).
+//
+//go:norace
 func (w *apiWorld) note(f string, a ...any) {
+	if w.quiet {
+		return
+	}
 	if len(w.desc) < 120 {
 		w.desc = append(w.desc, fmt.Sprintf(f, a...))
 	}
@@ -275,6 +284,10 @@ type apiGPU struct {
 // newAPIWorld builds scheduler, router and an empty store. Controller only.
 func newAPIWorld(t *testing.T, sim *verifsim.Sim, prop string, gpu apiGPU, maxRunners, numParallel, maxQueue int) *apiWorld {
 	w := &apiWorld{t: t, sim: sim, prop: prop}
+	w.srvs = make([]*simLlama, 0, 512) // no growth (runtime.growslice is race-instrumented whatever the caller)
+	w.createdSq = make([]int, 0, 512)
+	w.closedSq = make([]int, 0, 512)
+	w.quiet = verifsim.RaceBuild && !sim.KeepLog
 	w.now = sim.Now
 	w.dir = filepath.Join(verifScratch(), "api-store")
 	os.RemoveAll(w.dir)
@@ -329,6 +342,7 @@ func newAPIWorld(t *testing.T, sim *verifsim.Sim, prop string, gpu apiGPU, maxRu
 	verifGetGPUInfo = w.gpuList
 	s.newServerFn = w.newServer
 	w.onClose = w.closed
+	w.onClosed = w.closedDone
 	s.Run(w.ctx)
 	w.srv = &Server{sched: s}
 	h, err := w.srv.GenerateRoutes(nil)
@@ -339,6 +353,7 @@ func newAPIWorld(t *testing.T, sim *verifsim.Sim, prop string, gpu apiGPU, maxRu
 	return w
 }
 
+//go:norace
 func (w *apiWorld) gpuList() discover.GpuInfoList {
 	if len(w.inv.gpus) == 0 {
 		l := w.inv.cpuList()
@@ -355,6 +370,7 @@ func (w *apiWorld) gpuList() discover.GpuInfoList {
 	return w.inv.list()
 }
 
+//go:norace
 func (w *apiWorld) newServer(gpus discover.GpuInfoList, model string, f *ggml.GGML, adapters []string, projectors []string, opts api.Options, numParallel int) (llm.LlamaServer, error) {
 	verifsim.Yield("sim:new-server")
 	srv := &simLlama{w: &w.simLlamaWorld, id: len(w.srvs), model: model, opts: opts, numParallel: numParallel, adapters: adapters, projectors: projectors,
@@ -374,27 +390,31 @@ func (w *apiWorld) newServer(gpus discover.GpuInfoList, model string, f *ggml.GG
 	return srv, nil
 }
 
-func (w *apiWorld) closed(s *simLlama) {
+// closedDone: Close() of an instance is about to return, the runner is torn down.
+//go:norace
+func (w *apiWorld) closedDone(s *simLlama) {
 	w.seq++
 	if s.id < len(w.closedSq) && w.closedSq[s.id] == 0 {
 		w.closedSq[s.id] = w.seq
 	}
+}
+
+//go:norace
+func (w *apiWorld) closed(s *simLlama) {
 	w.note("t=%v close #%d %s", w.now(), s.id, w.famOfPath(s.model))
 	for _, g := range w.inv.gpus {
 		if g.info.Library == "cuda" {
 			if m := s.EstimatedVRAMByGPU(g.info.ID); m > 0 && !w.fair {
 				g.lagged += m
 				lag := time.Duration(50+verifsim.Draw("vram-lag", 3000)) * time.Millisecond
-				gg := g
-				verifsim.Go("vram-lag", func() {
-					verifsim.Sleep(lag)
-					gg.lagged -= m
-				})
+				l := &vramLag{g: g, m: m, d: lag}
+				verifsim.Go("vram-lag", l.run)
 			}
 		}
 	}
 }
 
+//go:norace
 func (w *apiWorld) famOfPath(p string) string {
 	for _, f := range w.fams {
 		if f.blobPath == p {
@@ -404,6 +424,7 @@ func (w *apiWorld) famOfPath(p string) string {
 	return filepath.Base(p)
 }
 
+//go:norace
 func (w *apiWorld) famOfName(name string) *apiFamily {
 	for _, f := range w.fams {
 		for _, n := range f.names {
@@ -599,4 +620,17 @@ func apiSetenvOrUnset(k string, v int) {
 	} else {
 		os.Setenv(k, strconv.Itoa(v))
 	}
+}
+
+// vramLag gives back, after a delay, the memory of a closed runner on a cuda device.
+type vramLag struct {
+	g *simGPU
+	m uint64
+	d time.Duration
+}
+
+//go:norace
+func (l *vramLag) run() {
+	verifsim.Sleep(l.d)
+	l.g.lagged -= l.m
 }
